@@ -48,25 +48,20 @@ func c20Validation(c *Ctx) {
 		}
 	}
 	maxLen := int64(128 * 1024)
-	var rf, dec *ssa.Call
-	for _, ci := range callsIn(fn) {
-		switch calleeName(ci) {
-		case "io.ReadFull":
-			rf = ci.(*ssa.Call)
-		case kdcPkgPath + ".decode":
-			dec = ci.(*ssa.Call)
-		}
-	}
-	if rf == nil || dec == nil {
+	rfs := c.findSteps(fn, "io.ReadFull")
+	decs := c.findSteps(fn, kdcPkgPath+".decode")
+	if len(rfs) != 1 || len(decs) != 1 || len(decs[0].via) > 0 {
 		c.Bad(rule, key+" calls", fn.Pos(), "io.ReadFull / decode not found")
 		return
 	}
+	rfS, decS := rfs[0], decs[0]
+	rf, dec := rfS.call, decS.call
 	isLen := isField("ContentLength")
 	guards := []struct {
 		name string
 		g    Guard
 		code int64
-		neg  Guard // condition of the refusing branch
+		st   *stepRef // the step whose result the guard tests, when it may sit in a helper
 	}{
 		{"method POST", GEq(isField("Method"), func(v ssa.Value) bool { s, ok := constString(v); return ok && s == "POST" }), 405, nil},
 		{"length declared", GNeq(isLen, func(v ssa.Value) bool { k, ok := constInt(v); return ok && k == -1 }), 411, nil},
@@ -81,18 +76,28 @@ func c20Validation(c *Ctx) {
 			}
 			return false
 		}), 413, nil},
-		{"body fully read", GErrNil(resultOf(rf, 1)), 500, nil},
+		{"body fully read", GErrNil(resultOf(rf, 1)), 500, &rfS},
 		{"DER decoded", GErrNil(resultOf(dec, 1)), 400, nil},
 	}
 	for _, g := range guards {
-		ok, why := mustPass(fn, fw, g.g)
+		gg := g.g
+		if g.st != nil && len(g.st.via) > 0 {
+			// the step sits in a helper: the handler tests the helper's error, and the helper yields a
+			// nil error only over the step's success edge
+			if ok, _ := c.stepGates(fn, fw, *g.st, 1); ok {
+				outer := g.st.via[0]
+				gg = GErrNil(resultOf(outer, errIndex(outer)))
+			}
+		}
+		ok, why := mustPass(fn, fw, gg)
 		c.Check(ok, rule, key+" forward needs "+g.name, fw.Pos(), "forward reachable only over "+g.name, "a request is forwarded to a KDC "+why+" ("+g.name+")")
 		// status of the refusing branch: an http.Error that is reachable only when the guard is false
-		neg := func(cond ssa.Value, branch bool) bool { return g.g(cond, !branch) }
+		neg := func(cond ssa.Value, branch bool) bool { return gg(cond, !branch) }
 		found := false
-		for _, ci := range callsTo(fn, "net/http.Error") {
+		for _, he := range c.httpErrors(fn) {
+			ci := he.site
 			if okn, _ := mustPass(fn, ci.(ssa.Instruction), neg); okn {
-				code, isC := constInt(arg(ci, 2))
+				code, isC := constInt(he.code)
 				// attribute the call to the innermost guard only: it must not also be under a later guard's negation
 				if isC && code == g.code {
 					found = true
@@ -103,8 +108,8 @@ func c20Validation(c *Ctx) {
 	}
 	// shapes: buffer of the declared length, decode of that buffer, forward of the decoded fields
 	bufOK := false
-	if l, ok := sliceLenValue(strip(arg(rf, 1))); ok && isLen(strip(l)) {
-		bufOK = strip(arg(dec, 0)) == strip(arg(rf, 1))
+	if l, ok := sliceLenValue(strip(arg(rf, 1))); ok && isLen(strip(c.upIn(rfS, strip(l)))) {
+		bufOK = strip(arg(dec, 0)) == strip(arg(rf, 1)) || c.norm(arg(dec, 0)) == strip(arg(rf, 1))
 	}
 	if _, f, ok := fieldLoad(strip(arg(rf, 0))); !ok || f.Name() != "Body" {
 		bufOK = false
